@@ -9,6 +9,7 @@ CONSTANTS
   Roles = {"server", "client"}
   PmceSet = {FALSE, TRUE}
   PoolSet = {FALSE, TRUE}
+  Quick = FALSE
 CONSTRAINT Emit
 INVARIANTS InvRefines InvWire InvCloseLast InvFailStop InvPool
 CHECK_DEADLOCK FALSE
